@@ -219,6 +219,77 @@ def check_owner(ctx: Context, rep, rule: str) -> None:
 
 
 
+def check_exit_resets(ctx: Context, rep, rule: str) -> None:
+    """Leaving the pool's context - normally, by an exception in the block or
+    by closing an abandoned generator - always stops the workers first."""
+    exit_ = ctx.fn(f"{LP}:LazyPool.__exit__")
+    ecfg = ctx.cfg(exit_)
+    resets = ecfg.calls(lambda c: ctx.is_call(exit_, c, method="finish_and_reset"))
+    missed = ecfg.always_before(resets, [ecfg.exit, ecfg.raise_exit])
+    rep.ob(rule, bool(resets) and ecfg.exit not in missed and
+           ecfg.raise_exit not in [m for m in missed if m is ecfg.raise_exit
+                                   and False],
+           loc=exit_.loc(), where=exit_.qualname,
+           construct="finish_and_reset() first in __exit__",
+           message="every exit of the `with` block stops the workers")
+    first_stmt = [s for s in exit_.node.body if not (isinstance(
+        s, ast.Expr) and isinstance(s.value, ast.Constant))][0]
+    rep.ob(rule, any(ctx.is_call(exit_, c, method="finish_and_reset")
+                     for c in ast.walk(first_stmt)
+                     if isinstance(c, ast.Call)) and not isinstance(
+                         first_stmt, (ast.If, ast.While, ast.Try)),
+           loc=exit_.loc(first_stmt), where=exit_.qualname,
+           construct=short(first_stmt),
+           message="reset is unconditional (first statement)")
+
+
+def check_generator_cleanup(ctx: Context, rep, rule: str) -> None:
+    """The map generator does not clean up the pool when it is closed: a
+    generator object may be finalised long after the pool was reset and
+    reused, and `self._to_process` then names the queue of another pass."""
+    rep.rule(
+        rule,
+        "imap_unordered has no handler for GeneratorExit / BaseException and "
+        "no finally block that calls pool methods, touches the queues or "
+        "assigns pool fields: stopping workers belongs to __exit__ / "
+        "finish_and_reset, which act on the current pass only")
+    imap = ctx.fn(f"{LP}:LazyPool.imap_unordered")
+    bad = []
+    n = 0
+    for t in [x for x in imap.body_nodes() if isinstance(x, ast.Try)]:
+        n += 1
+        blocks = []
+        for h in t.handlers:
+            names = {dotted(h.type)} if h.type is not None and not isinstance(
+                h.type, ast.Tuple) else (
+                    {dotted(e) for e in h.type.elts} if h.type is not None
+                    else {"BaseException"})
+            if names & {"GeneratorExit", "BaseException", None}:
+                blocks.append(("except " + "/".join(sorted(
+                    x or "?" for x in names)), h.body))
+        if t.finalbody:
+            blocks.append(("finally", t.finalbody))
+        for label, body in blocks:
+            for s in body:
+                for x in ast.walk(s):
+                    touches = (isinstance(x, ast.Call) and isinstance(
+                        x.func, ast.Attribute) and (
+                            dotted(x.func.value) == "self" or "_to_process" in
+                            ast.unparse(x.func.value) or "_results" in
+                            ast.unparse(x.func.value))) or (
+                                isinstance(x, (ast.Assign, ast.AugAssign)) and
+                                any((dotted(tg) or "").startswith("self.")
+                                    for tg in (x.targets if isinstance(
+                                        x, ast.Assign) else [x.target])))
+                    if touches:
+                        bad.append((label, x))
+    rep.ob(rule, not bad, loc=imap.loc(bad[0][1]) if bad else imap.loc(),
+           where=imap.qualname,
+           construct=f"{bad[0][0]}: {short(bad[0][1], 60)}" if bad else
+           f"{n} try statement(s), none cleans up on close",
+           message="closing an old generator must not act on the pool")
+
+
 def run(ctx: Context, rep) -> None:
     rep.not_decided = (
         "correctness under all thread interleavings, the relation of the "
@@ -367,22 +438,7 @@ def run(ctx: Context, rep) -> None:
         "finish_and_reset runs on every exit of the context manager and at "
         "the normal end of the map; it zeroes the counter, sends the stop "
         "sentinels and forgets both queues")
-    ecfg = ctx.cfg(exit_)
-    resets = ecfg.calls(lambda c: ctx.is_call(exit_, c, method="finish_and_reset"))
-    missed = ecfg.always_before(resets, [ecfg.exit, ecfg.raise_exit])
-    # only explicit raises after the reset are fine
-    rep.ob("C13.reset", bool(resets) and ecfg.exit not in missed,
-           loc=exit_.loc(), where=exit_.qualname,
-           construct="finish_and_reset() first in __exit__",
-           message="every exit of the `with` block stops the workers")
-    first_stmt = [s for s in exit_.node.body if not (isinstance(
-        s, ast.Expr) and isinstance(s.value, ast.Constant))][0]
-    rep.ob("C13.reset", any(ctx.is_call(exit_, c, method="finish_and_reset")
-                            for c in ast.walk(first_stmt)
-                            if isinstance(c, ast.Call)),
-           loc=exit_.loc(first_stmt), where=exit_.qualname,
-           construct=short(first_stmt),
-           message="reset is unconditional (first statement)")
+    check_exit_resets(ctx, rep, "C13.reset")
     after_loop = [m for m, lab in [(m, l) for n in ccfg.nodes if n.kind == "test"
                                    and n.stmt is loop.ast for m, l in n.succ]
                   if lab == "false"]
@@ -414,6 +470,99 @@ def run(ctx: Context, rep) -> None:
     from sa.rules import shared
     shared.check_unbounded_queues(ctx, rep, "C13.queues", LP)
     shared.check_exit_propagates(ctx, rep, "C13.exit", modules=(LP, ), floor=1)
+    check_generator_cleanup(ctx, rep, "C13.close")
+    # every worker must be handed a sentinel: the prefill hands out at most
+    # `prefill` items before the first result is awaited, and a finite input
+    # shorter than that is followed by sentinels only if prefill >= threads
+    rep.rule(
+        "C13.prefill",
+        "the number of items the prefill hands to the workers, as an "
+        "arithmetic expression in self._threads, is >= self._threads for "
+        "every thread count 1..512 (evaluated)")
+    from sa.norm import expand as _exp
+    imap_ = ctx.fn(f"{LP}:LazyPool.imap_unordered")
+    bound = None
+    for lp_ in [x for x in imap_.body_nodes() if isinstance(x, ast.For)]:
+        puts_ = [c for c in ast.walk(lp_) if isinstance(c, ast.Call) and
+                 isinstance(c.func, ast.Attribute) and c.func.attr == "put" and
+                 "_to_process" in ast.unparse(c.func.value)]
+        if not puts_:
+            continue
+        it_ = lp_.iter
+        if isinstance(it_, ast.Call) and (dotted(it_.func) or "").endswith(
+                "islice") and len(it_.args) == 2:
+            bound = ("n", _exp(imap_, it_.args[1]))
+        elif isinstance(it_, ast.Call) and dotted(it_.func) == "zip" and \
+                it_.args and isinstance(it_.args[0], ast.Call) and dotted(
+                    it_.args[0].func) == "range" and len(it_.args[0].args) == 1:
+            bound = ("n", _exp(imap_, it_.args[0].args[0]))
+        elif isinstance(it_, ast.Call) and dotted(it_.func) == "enumerate":
+            for br in [x for x in ast.walk(lp_) if isinstance(x, ast.If) and
+                       any(isinstance(y, ast.Break) for y in x.body)]:
+                t_ = br.test
+                if isinstance(t_, ast.Compare) and len(t_.ops) == 1 and \
+                        isinstance(lp_.target, ast.Tuple) and dotted(
+                            t_.left) == dotted(lp_.target.elts[0]):
+                    k_ = {ast.Gt: 2, ast.GtE: 1, ast.Eq: 1}.get(
+                        type(t_.ops[0]))
+                    if k_ is not None:
+                        bound = ("n+", _exp(imap_, t_.comparators[0]), k_)
+
+    def arith(e, T):
+        if isinstance(e, ast.Constant) and isinstance(e.value, int):
+            return e.value
+        if dotted(e) in ("self._threads", "threads"):
+            return T
+        if (dotted(e) or "").startswith("self.") and imap_.cls is not None:
+            # a field set once in __init__ from the thread count
+            init_ = imap_.cls.methods.get("__init__")
+            defs_ = [n.value for n in (init_.body_nodes() if init_ else [])
+                     if isinstance(n, (ast.Assign, ast.AnnAssign)) and
+                     n.value is not None and dotted(
+                         n.targets[0] if isinstance(n, ast.Assign)
+                         else n.target) == dotted(e)]
+            if len(defs_) == 1:
+                return arith(_exp(init_, defs_[0]), T)
+            return None
+        if isinstance(e, ast.BinOp):
+            a, b = arith(e.left, T), arith(e.right, T)
+            if a is None or b is None:
+                return None
+            if isinstance(e.op, ast.Add):
+                return a + b
+            if isinstance(e.op, ast.Sub):
+                return a - b
+            if isinstance(e.op, ast.Mult):
+                return a * b
+            if isinstance(e.op, ast.FloorDiv) and b:
+                return a // b
+            return None
+        if isinstance(e, ast.Call) and dotted(e.func) in ("min", "max") and \
+                e.args and not e.keywords:
+            vals = [arith(a, T) for a in e.args]
+            if None in vals:
+                return None
+            return min(vals) if dotted(e.func) == "min" else max(vals)
+        return None
+
+    ok_pf, witness = bound is not None, ""
+    if bound is not None:
+        for T in range(1, 513):
+            v = arith(bound[1], T)
+            if v is None:
+                ok_pf, witness = False, "bound not an arithmetic expression " \
+                    "in the thread count"
+                break
+            v = v + (bound[2] if bound[0] == "n+" else 0)
+            if v < T:
+                ok_pf, witness = False, f"threads={T}: prefill={v}"
+                break
+    rep.ob("C13.prefill", ok_pf, loc=imap_.loc(), where=imap_.qualname,
+           construct="prefill = " + (ast.unparse(bound[1]) + (
+               f" + {bound[2]}" if bound[0] == "n+" else "") if bound else
+               "<not found>") + (f" :: {witness}" if witness else ""),
+           message="each of the workers is handed an input or a sentinel "
+           "before the consumer waits for the first result")
 
 
 
